@@ -1,5 +1,6 @@
 """check driver: decides one property with the contract units that serve it."""
 import glob
+import shutil
 import importlib.util
 import json
 import os
@@ -216,6 +217,11 @@ def scan_assumptions(units):
 
 
 def finish(pid, tier, seed, sel, results, cmds, solver_time, assumptions, units, t0):
+    global VERIF
+    if os.environ.get('VERIF_SELFTEST'):
+        VERIF = '/var/tmp/rva-selftest/out'
+        os.makedirs(VERIF, exist_ok=True)
+        shutil.copy(os.path.join(os.path.dirname(os.path.dirname(os.path.abspath(__file__))), 'KNOWN_FINDINGS.txt'), VERIF)
     findings, fixed = known_findings()
     meta = LEVELS[pid]
     violations = []
